@@ -28,6 +28,7 @@ type LoopSpec struct {
 	Invariants []*Clause
 	Steps      []*Clause
 	Decreases  []*Clause
+	Assumes    []*Clause
 }
 
 type Contract struct {
@@ -346,7 +347,16 @@ func (ss *SpecSet) parseFile(path string, trusted bool, pkgName string) {
 			case "ensures":
 				cur.Ensures = append(cur.Ensures, c)
 			case "assume":
-				cur.Assumes = append(cur.Assumes, c)
+				if loop > 0 {
+					ls := cur.Loops[loop]
+					if ls == nil {
+						ls = &LoopSpec{}
+						cur.Loops[loop] = ls
+					}
+					ls.Assumes = append(ls.Assumes, c)
+				} else {
+					cur.Assumes = append(cur.Assumes, c)
+				}
 			default:
 				if loop == 0 {
 					ss.Errors = append(ss.Errors, fmt.Sprintf("%s:%d: %s needs 'loop N'", path, lineNo, c.Kind))
